@@ -1,6 +1,7 @@
 package main
 
 import (
+	"strings"
 	"fmt"
 	"time"
 
@@ -74,9 +75,10 @@ func rxLoopLine(t []string) (out string) {
 	}
 	ds.VerifMeterReset()
 	done, failed, stopped := 0, 0, "no"
+	texts := strings.Split(src, "\n---\n") // several texts: evaluated in turn
 	return safely(func() string {
 		for i := int64(0); i < n; i++ {
-			_, err := vm.RunExpr(src, i%2 == 0)
+			_, err := vm.RunExpr(texts[int(i)%len(texts)], (i/int64(len(texts)))%2 == 0)
 			if err != nil {
 				if err.Error() == "允许算力上限" {
 					stopped = "budget"
